@@ -11,6 +11,36 @@ def tiers(q_checks, t_checks, q_timeout=900, t_timeout=3000, shards=8, **kw):
     return d
 
 CHECKS = {
+    "C01": {
+        "pkg": "./checks/c01",
+        "level": "exploration",
+        "assumptions": [
+            "HTML5 tokenizer = golang.org/x/net/html Tokenizer; its CR/CRLF->LF and RCDATA NUL->U+FFFD normalisations are applied to the expected value",
+            "for style and href/action sinks the expected value is the sanitiser's own return value (their policy is C04/C05)",
+            "sinks are the fixtures in harness/fx/sinks.templ (41 placements of the quantifier's sink kinds) generated with /repo's generator at check time",
+        ],
+        **tiers(20000, 200000),
+    },
+    "C04": {
+        "pkg": "./checks/c04",
+        "level": "exploration",
+        "assumptions": [
+            "a browser's scheme detection = WHATWG URL scheme-start/scheme states after stripping leading/trailing C0/space and removing TAB/LF/CR (own implementation in oracle/urlscheme)",
+            "the oracle is one-directional as the statement is: over-rejection by the sanitiser is allowed",
+            "mixed-case HREF= and href supplied through a spread map are outside the statement (observations only)",
+        ],
+        **tiers(20000, 300000),
+    },
+    "C05": {
+        "pkg": "./checks/c05",
+        "level": "exploration",
+        "assumptions": [
+            "a browser's CSS parsing = CSS Syntax Level 3 tokenizer and rule/declaration-list parser (own implementation in oracle/csstok)",
+            "templ.SafeCSS / SafeCSSProperty and the plain-string form of style= are declared pass-throughs and outside the statement",
+            "a declaration that is not well-formed (e.g. property name '-') is dropped by the browser up to its ';' and affects nothing",
+        ],
+        **tiers(20000, 200000),
+    },
     "C17": {
         "pkg": "./checks/c17",
         "level": "exploration",
